@@ -42,6 +42,7 @@ deep_eq = z3.Function('deep_eq', Val, Val, z3.BoolSort())
 pystr = z3.Function('pystr', Val, z3.StringSort())          # str(v) for non-str v
 pyrepr = z3.Function('pyrepr', Val, z3.StringSort())
 rpow = z3.Function('rpow', z3.RealSort(), z3.RealSort(), z3.RealSort())
+elem_at = z3.Function('elem_at', SeqV, I, Val)          # element read; equals seq.nth inside the bounds
 str_lower = z3.Function('str_lower', z3.StringSort(), z3.StringSort())
 
 
